@@ -52,6 +52,26 @@ if not demo_dir:
     head = open(demos[0]).read(3000)
     m = re.search(r"(pkg/[A-Za-z0-9_/]+)", head)
     demo_dir = m.group(1).rstrip("/") if m else pkgs[0]
+while demo_dir and not os.path.isdir(os.path.join("/repo", demo_dir)):
+    demo_dir = os.path.dirname(demo_dir)
+
+
+def dir_of(demo):
+    """package directory a demo file belongs to: a pkg/... path named in its header whose Go
+    package name matches the file's package clause; else the common demo_dir"""
+    txt = open(demo).read()
+    m = re.search(r"^package (\w+)", txt, re.M)
+    pk = m.group(1) if m else ""
+    for c in re.findall(r"(pkg/[A-Za-z0-9_/]+)", txt[:4000]):
+        c = c.rstrip("/")
+        while c and not os.path.isdir(os.path.join("/repo", c)):
+            c = os.path.dirname(c)
+        if c and (os.path.basename(c) == pk or os.path.basename(c) + "_test" == pk):
+            return c
+    return demo_dir
+
+
+demo_dirs = {d: dir_of(d) for d in demos}
 tests = []
 for d in demos:
     tests += re.findall(r"^func (Test\w+)\(", open(d).read(), re.M)
@@ -69,10 +89,11 @@ try:
 
     def demo():
         for d in demos:
-            shutil.copy(d, os.path.join(wt, demo_dir, "zz_" + os.path.basename(d)))
-        rc, out = sh("go test %s -vet=off -count=1 -run '%s' ./%s/" % (mf, run_re, demo_dir), cwd=wt)
+            shutil.copy(d, os.path.join(wt, demo_dirs[d], "zz_" + os.path.basename(d)))
+        pk = " ".join("./%s/" % x for x in sorted(set(demo_dirs.values())))
+        rc, out = sh("go test %s -vet=off -count=1 -run '%s' %s" % (mf, run_re, pk), cwd=wt)
         for d in demos:
-            os.remove(os.path.join(wt, demo_dir, "zz_" + os.path.basename(d)))
+            os.remove(os.path.join(wt, demo_dirs[d], "zz_" + os.path.basename(d)))
         return rc, out
 
     rc, out = demo()
@@ -120,7 +141,7 @@ if ok:
     old = {}
     if os.path.exists(os.path.join(dst, "meta.json")) and os.path.abspath(src) == os.path.abspath(dst):
         old = json.load(open(os.path.join(dst, "meta.json")))
-    meta.update({"breaks_property": re.sub(r"[a-z]$", "", name), "demo_dir": demo_dir, "demo_tests": tests,
+    meta.update({"breaks_property": re.sub(r"[a-z]$", "", name), "demo_dir": demo_dir, "demo_dirs": {os.path.basename(k): v for k, v in demo_dirs.items()}, "demo_tests": tests,
                  "confirmed_by_coordinator": result,
                  "how_confirmed": "tools/seedconfirm.py %s: scratch worktree of /repo HEAD; demo passes pristine; patch applied; go build + existing tests of touched packages pass; demo fails; ./check run with VERIF_REPO=<patched worktree>" % name})
     if old.get("caught_by"):
